@@ -71,7 +71,9 @@ GlobalGraph::Edge GlobalGraph::link(Graph::NodeId nodeA, Graph::NodeId nodeB)
   if (nodeStructure_[nodeA].first.find(nodeB) != nodeStructure_[nodeA].first.end())
     throw Exception("GlobalGraph::link : nodes already linked " + TextTools::toString(nodeA) + "->" + TextTools::toString(nodeB));
 
-  // which ID is available?
+  // which ID is available? (ids given explicitly through link(a, b, id) are skipped)
+  while (edgeStructure_.find(highestEdgeID_) != edgeStructure_.end())
+    highestEdgeID_++;
   GlobalGraph::Edge edgeID = highestEdgeID_++;
 
   // writing the new relation to the structure
